@@ -37,6 +37,16 @@ func (f *frame) specEnv(st *hstate) *specEnv {
 			}
 		}
 	}
+	if env.pkg == nil && f.contract != nil {
+		env.pkg = f.vc.eng.pkgByPath(f.contract.Pkg)
+	}
+	if f.top {
+		for n, v := range f.vc.implVars {
+			if _, dup := env.vars[n]; !dup {
+				env.vars[n] = v
+			}
+		}
+	}
 	env.where = funcDisplay(f.fn)
 	return env
 }
@@ -324,7 +334,7 @@ func paramNamesTypes(ct *Contract, fn *ssa.Function, sig *types.Signature) ([]st
 			ts = append(ts, sig.Params().At(i).Type())
 		}
 	}
-	if ct != nil && len(ct.ParamNames) > 0 {
+	if ct != nil && len(ct.ParamNames) > 0 && ct.Kind != "iface" {
 		for i, n := range ct.ParamNames {
 			if i < len(names) {
 				names[i] = n
